@@ -7,10 +7,6 @@ pub struct ExInstant(Instant);
 pub uninterp spec fn ins(i: Instant) -> int;
 pub uninterp spec fn dns(d: Duration) -> nat;
 
-pub open spec fn ord_of(a: int, b: int) -> std::cmp::Ordering {
-    if a < b { std::cmp::Ordering::Less } else if a == b { std::cmp::Ordering::Equal } else { std::cmp::Ordering::Greater }
-}
-
 // R9: associated constants of an external type become calls of these
 #[verifier::external_body]
 pub fn duration_zero() -> (d: Duration)
